@@ -21,7 +21,7 @@ def fat_header_history(rng):
     return ops
 
 
-def one_history(rng):
+def one_history(rng, dense=True, spec_safe=False):
     if rng.random() < 0.12:
         return fat_header_history(rng)
     ops = []
@@ -47,7 +47,17 @@ def one_history(rng):
             if p not in groups and p not in leaves:
                 groups.append(p)
         elif r < 0.7:
-            ops.append({"op": "mkds", "path": p, "dtype": rng.choice(["int32", "float64", "uint8"]), "dims": [rng.choice([1, 3])]})
+            k = rng.random()
+            if k < 0.15:        # leaves of the other creation paths: CreateCompoundDataset, array / enum / ... through CreateDataset
+                ops.append(dict({"op": "mkcompound", "path": p, "dims": [rng.choice([1, 3])]}, **histgen.rand_compound(rng, spec_safe)))
+            elif k < 0.3:
+                ops.append(dict({"op": "mkds", "path": p, "dims": [rng.choice([1, 3])]}, **histgen.rand_ext_kind(rng, spec_safe)))
+            elif k < 0.36 and leaves and dense:     # groups created together with their links (CreateDenseGroup; CreateGroupWithLinks: > 8 links dense, 1..8 refused, 0 plain)
+                nl = rng.choice([1, 2, 3, 9, 0, 1])
+                ops.append({"op": rng.choice(["mkdense", "mkgrouplinks"]), "path": p, "links": {"k%d" % j: rng.choice(leaves) for j in range(nl)}})
+                continue
+            else:
+                ops.append({"op": "mkds", "path": p, "dtype": rng.choice(["int32", "float64", "uint8"]), "dims": [rng.choice([1, 3])]})
             if p not in groups and p not in leaves:
                 leaves.append(p)
         elif r < 0.82 and leaves:
@@ -59,11 +69,15 @@ def one_history(rng):
             if len(groups) > 1 or leaves:
                 q = rng.choice([g for g in groups if g != "/"] + leaves)
                 ops.append(rng.choice([{"op": "mkgroup", "path": q}, {"op": "mkds", "path": q, "dtype": "int32", "dims": [1]},
+                                       {"op": "mkdense", "path": q, "links": {"a": rng.choice(leaves)} if leaves else {}}, {"op": "mkgrouplinks", "path": q, "links": {}},
+                                       dict({"op": "mkcompound", "path": q, "dims": [1]}, **histgen.rand_compound(rng, spec_safe)),
                                        {"op": "hardlink", "path": q, "target": rng.choice(leaves) if leaves else "/x"}]))
         else:
             ops.append(rng.choice([{"op": "mkgroup", "path": "/missing%d/g" % rng.randint(0, 5)},
                                    {"op": "mkds", "path": p + "/under/leaf", "dtype": "int32", "dims": [1]},
                                    {"op": "hardlink", "path": "/hl%d" % rng.randint(0, 50), "target": "/no/such/target"},
+                                   {"op": "mkdense", "path": "/dn%d" % rng.randint(0, 50), "links": {"a": "/no/such/target"}},
+                                   {"op": "mkdense", "path": "/missing%d/g" % rng.randint(0, 5), "links": {"a": rng.choice(leaves)} if leaves else {}},
                                    {"op": "mkgroup", "path": "relative"}, {"op": "mkgroup", "path": ""}, {"op": "mkgroup", "path": "/"}]))
     return ops
 
@@ -72,6 +86,8 @@ KNOWN = [
     dict(id="C03-hardlink-to-group", match="lists [], expected",
          case={"sb": 2, "ops": [{"op": "mkgroup", "path": "/g"}, {"op": "mkds", "path": "/g/d", "dtype": "int32", "dims": [1]},
                                 {"op": "hardlink", "path": "/h", "target": "/g"}]}),
+    dict(id="C03-dense-group-links-not-read", match="paths missing after reopen",
+         case={"sb": 2, "ops": [{"op": "mkds", "path": "/a", "dtype": "int32", "dims": [1]}, {"op": "mkdense", "path": "/dg", "links": {"x": "/a"}}]}),
     dict(id="C03-soft-link", match="unexpected paths after reopen",
          case={"sb": 2, "ops": [{"op": "mkds", "path": "/d", "dtype": "int32", "dims": [1]}, {"op": "softlink", "path": "/s", "target": "/d"}]}),
 ]
@@ -86,4 +102,6 @@ def run(ctx):
     return histcheck.run(ctx, cases_for(ctx.rng, ctx.tier), "C03", tags={"tree", "must-fail-accepted"}, known=KNOWN, unit_modules=["c03unit"],
                          rule_extra="C03 cases: creation sequences (5..80 calls) in deep (depth<=6), wide (beyond the 32-entry group capacity), "
                                     "long-name (filling the 256-byte name heap) and mixed modes with duplicate, missing-parent and malformed-path "
-                                    "requests and hard links to datasets (incl. targets whose header chunk is nearly full); hard links to groups and soft/external links are KNOWN-FINDING classes.")
+                                    "requests and hard links to datasets (incl. targets whose header chunk is nearly full); leaves also through CreateCompoundDataset and the array/enum/opaque/reference/variable-length "
+                                    "kinds of CreateDataset; groups also through CreateDenseGroup / CreateGroupWithLinks (0, 1-8 [refused: must leave nothing], > 8 links, missing targets, duplicates); "
+                                    "hard links to groups, soft/external links and the links of dense groups are KNOWN-FINDING classes.")
